@@ -919,8 +919,12 @@ class sptensor:
         >>> S.innerprod(K)
         3.0
         """
-        # If all entries are zero innerproduct must be 0
-        if self.nnz == 0:
+        # If all entries are zero innerproduct must be 0 (for a tensor of the same shape)
+        if (
+            self.nnz == 0
+            and isinstance(other, (ttb.sptensor, ttb.tensor, ttb.ktensor, ttb.ttensor))
+            and self.shape == other.shape
+        ):
             return 0
 
         if isinstance(other, ttb.sptensor):
